@@ -151,12 +151,15 @@ class H2Protocol:
         else:
             self.connection.initiate_connection()
         await self._flush()
+        # The send task has to exist before the upgraded request is
+        # handled, a response the stream generates itself (e.g. 404
+        # for an unknown server name) waits for it to be sent.
+        self.task_group.spawn(self.send_task)
         if headers is not None:
             event = _request_received(1, headers)
             await self._create_stream(event)
             if event.stream_id in self.streams:  # Unless the request was refused
                 await self.streams[event.stream_id].handle(EndBody(stream_id=event.stream_id))
-        self.task_group.spawn(self.send_task)
 
     async def send_task(self) -> None:
         # This should be run in a seperate task to the rest of this
